@@ -28,8 +28,10 @@ MARK = "//?: is-ssb-script"
 
 
 def _programs(thorough: bool) -> list[tuple[str, str, list[list[Any]]]]:
-    from ..spec.skeletons import all_skeletons, gen_flat, gen_nested, gen_extra
+    from ..spec.skeletons import all_skeletons, gen_flat, gen_nested, gen_extra, gen_random
     out: list[tuple[str, str, list[list[Any]]]] = []
+    for fam, prog in gen_random(thorough):
+        out.append(("general", fam, prog))
     for i, (fam, prog) in enumerate(all_skeletons(False)):
         if thorough or i % 3 == 0:
             out.append(("general", fam, prog))
